@@ -117,6 +117,12 @@ theorem modification_allocates_no_teid (cfg : Agent.Cfg) (w : Agent.World) (a : 
     (Agent.modify cfg w a r).world.teid.offset = w.teid.offset :=
   Agent.modify_allocates_no_teid cfg w a r
 
+/-- and no other request does either: deletions, reports, association setups and endings, PFD updates only ever clear marks — a TEID
+in use after any non-establishment request was in use before it -/
+theorem only_establishment_takes_teids (cfg : Agent.Cfg) (w : Agent.World) (q : Agent.Req) (hq : q.isEst = false) (x : Nat)
+    (h : (Agent.stepReq cfg w q).teid.used x = true) : w.teid.used x = true :=
+  Agent.only_establishment_takes_teids cfg w q hq x h
+
 section
 open Agent
 def exCfgT : Cfg := { accessIP := 0xC6120101, coreIP := 0x7F000001, ueAlloc := false, endMarker := false, qci := [] }
